@@ -1,4 +1,7 @@
 import NavisModel.Proofs.SwcLemmas
+import NavisModel.Proofs.SwcTextLemmas
+import NavisModel.Proofs.SwcDepthLemmas
+import NavisModel.Proofs.SwcFmtLemmas
 import NavisModel.Proofs.WfB
 /-!
 # C07 — SWC files round-trip and are valid, parent-first SWC tables
@@ -14,7 +17,7 @@ theorems prefixed `historical_` are statements about that *former* ordering (`so
 They are not claims about the current code.
 -/
 namespace Navis.Props.C07
-open Navis.Swc Navis.Forest
+open Navis.Swc Navis.Forest Navis.SwcText
 
 /-- The executable validity checker (evaluated by the driver on the rows parsed from navis' file)
 decides the specification: ids are `1..N` in row order, a row is a root with parent `-1` or its parent id is
@@ -214,6 +217,224 @@ theorem no_meta_round_trip (cfg : ReadCfg) (op : Opts) (sk : Skel) (o : List SNo
   refine ⟨_, readBack_writeWith cfg .off op sk o, ?_⟩
   simp [ofFile, metaProps]
 
+/-! ### the algorithm as written refines the model
+
+`makeSwcTable` (used by every theorem above) orders the rows by the *specification* depth (length of the root path) and labels
+them with the priority function `autoLabel`.  navis computes the sort key with the memoised walk `_node_depths` and the labels
+with sequential overwriting assignments.  Both as-written algorithms are in the model (`nodeDepthsW`, `labelsAsWritten` over
+the rule list the translator extracts) and are proved equal to the specification; the driver runs the as-written table
+against navis. -/
+
+/-- **`_node_depths` as written** (memo dict, walk until a memoised / absent node, assign along the reversed path) returns for
+every row of a well-formed forest — whatever the row order, so also for rerooted tables whose rows come child-first — its
+number of steps to the root. -/
+theorem node_depths_as_written (t : List SNode) (hw : WF (forest t)) :
+    nodeDepthsW t = t.map fun n => ((depth t n.id : Nat) : Int) - 1 := nodeDepthsW_eq hw
+
+/-- **The label assignments as written**, in the order and with the `export_connectors` gating found in the source
+(`Gen.Swc.labelRules`), compute `autoLabel`: fork 5 / end 6, overridden by soma 1, overridden by presynapse 7, overridden by
+postsynapse 8.  Reordering the assignments in the source changes `labelRules` and this theorem stops checking. -/
+theorem label_rules_as_written (sk : Skel) (ex : Bool) (n : SNode) :
+    labelsAsWritten Gen.Swc.labelRules sk ex n = autoLabel sk ex n := labelsAsWritten_gen sk ex n
+
+/-- **The table as written is the table of the model** — hence valid and round-tripping by the theorems above. -/
+theorem table_as_written (op : Opts) (sk : Skel) (hw : WF (forest sk.nodes)) :
+    makeSwcTableW op sk = makeSwcTable op sk := by
+  unfold makeSwcTableW makeSwcTable
+  rw [sortByDepthW_eq hw, labelOfW_eq]
+
+theorem table_as_written_valid (op : Opts) (sk : Skel) (hw : WF (forest sk.nodes)) :
+    swcValidB (makeSwcTableW op sk) = true := by
+  rw [table_as_written op sk hw]; exact table_valid op sk hw
+
+/-! ### the `header=` option: the reader skips exactly the header, whatever the header string
+
+Token level (`Model/Swc.lean`): a header is any list of physical lines none of which is a data row (`noRows`: `#` lines,
+Meta lines, blank lines, in any arrangement).  Character level (`Model/SwcText.lean`): the text `_write_swc` assembles from
+the header string and the rendered rows, cut into lines the way the reader does. -/
+
+/-- The reader's data rows are all row lines of a file, wherever comment / Meta / blank lines sit. -/
+theorem data_rows_are_the_row_lines (ls : List Line) : dataRows ls = ls.filterMap rowLine? := dataRows_eq_filterMap ls
+
+/-- **Whatever the header, the data rows of the written file are exactly the table rows.**  For every list of header
+lines without a data row — the generated header with any `write_meta`, or any user supplied `header=` made of `#` lines
+and blank lines — the parser finds exactly the rows of the SWC table, in order, and the header properties are those of the
+first Meta line among the leading `#` lines of the header. -/
+theorem written_rows_any_header (hl : List Line) (rs : List SwcRow) (h : noRows hl = true) :
+    parseSwc (hl ++ rs.map renderRow) = some { props := metaOf hl, rows := rs } := parseSwc_custom hl rs h
+
+/-- The generated header never contains a data row, for every `write_meta` / `export_connectors` option. -/
+theorem generated_header_no_rows (wm : WriteMeta) (op : Opts) (sk : Skel) : noRows (headerLines wm op sk) = true :=
+  noRows_headerLines wm op sk
+
+/-- **Round trip with any header option**: the node table read back is the table written (so `table_valid`,
+`round_trip`, `soma_round_trip`, `synapse_labels_round_trip` carry over verbatim), the properties are those of the header. -/
+theorem round_trip_any_header (cfg : ReadCfg) (hd : Header) (op : Opts) (sk : Skel) (o : List SNode)
+    (h : noRows (headerFor hd op sk) = true) :
+    ∃ r, readBack cfg (writeH hd op sk o) = some r ∧ r.nodes = finish (labelOf op sk) o ∧
+      r.props = (if cfg.readMeta then (metaOf (headerFor hd op sk)).getD [] else []) :=
+  ⟨_, readBack_writeH cfg hd op sk o h, rfl, rfl⟩
+
+/-- With a user supplied header `write_meta` is ignored: what comes back is what the header itself says (nothing when it
+has no Meta line among its leading `#` lines). -/
+theorem custom_header_props (cfg : ReadCfg) (hl : List Line) (op : Opts) (sk : Skel) (o : List SNode)
+    (h : noRows hl = true) (hm : cfg.readMeta = true) :
+    ∃ r, readBack cfg (writeH (.custom hl) op sk o) = some r ∧ r.props = (metaOf hl).getD [] := by
+  refine ⟨_, readBack_writeH cfg (.custom hl) op sk o h, ?_⟩
+  simp [ofFile, hm, headerFor]
+
+/-- The written table is valid for every header option (`write_swc(..., header=…)` included). -/
+theorem table_valid_any_header (cfg : ReadCfg) (hd : Header) (op : Opts) (sk : Skel) (hw : WF (forest sk.nodes))
+    (h : noRows (headerFor hd op sk) = true) :
+    ∃ r, readBack cfg (writeH hd op sk (sortByDepth sk.nodes)) = some r ∧ swcValidB r.nodes = true :=
+  ⟨_, readBack_writeH cfg hd op sk _ h, table_valid op sk hw⟩
+
+/-- A header line that is not a comment is read as data: a header whose first line has fewer than seven fields (e.g.
+`header="no hash"`, written verbatim by navis — open finding `write_swc/custom-header/line-without-comment-prefix`)
+makes the file unreadable.  This is why `noRows` is a hypothesis above. -/
+theorem header_line_without_hash_breaks (ts : List Tok) (hts : ts.length < 7) (rest : List Line) :
+    parseSwc (.row ts :: rest) = none := by
+  unfold parseSwc
+  have : dataRows (.row ts :: rest) = ts :: rest.filterMap rowLine? := by
+    rw [dataRows_eq_filterMap]; rfl
+  rw [this]
+  simp [columnsOK]
+  intro h7
+  omega
+
+/-! #### character level: newline termination -/
+
+/-- The line terminator of `csv.writer` ends with its only `\n` (translator fact; `\r\n` by default). -/
+theorem eolPre_no_nl : '\n' ∉ eolPre := by decide
+
+/-- **Lines of the written text.**  With the newline-termination branch of `_write_swc` (translator fact
+`Gen.Swc.headerTerminated`, see `gen_header_terminated`) the text cut at `\n` is: the lines of the (terminated) header
+string, then one line per row — *for every header string whatsoever*. -/
+theorem written_text_lines (h : List Char) (rows : List (List Char)) (hrows : ∀ r ∈ rows, '\n' ∉ r) :
+    lines (assemble h rows) = lines (terminate h) ++ rows.map (· ++ eolPre) := by
+  unfold assemble
+  exact lines_terminated_rows eolPre eolPre_no_nl _ (terminateIf_true_ends h) rows hrows
+
+/-- **The reader skips exactly the header.**  If every line of the header string is a `#` line or blank, the lines
+`read_csv(skiprows=len(header_rows), comment="#")` parses are exactly the rendered rows (each starts with its PointNo as
+printed by `str(int)`), and `read_header_rows` returns the leading `#` lines of the header itself. -/
+theorem written_text_data_lines (h : List Char) (rows : List (Int × List Char))
+    (hh : ∀ l ∈ lines (terminate h), isHdr l = true ∨ isBlank l = true) (hrows : ∀ r ∈ rows, '\n' ∉ r.2) :
+    dataLines (lines (assemble h (rows.map fun r => rowLine r.1 r.2))) = rows.map (fun r => rowLine r.1 r.2 ++ eolPre) ∧
+    hdrRows (lines (assemble h (rows.map fun r => rowLine r.1 r.2))) = hdrRows (lines (terminate h)) := by
+  have hnl : ∀ r ∈ rows.map (fun r => rowLine r.1 r.2), '\n' ∉ r := by
+    intro r hr
+    obtain ⟨q, hq, rfl⟩ := List.mem_map.mp hr
+    exact nl_not_mem_rowLine q.1 q.2 (hrows q hq)
+  rw [written_text_lines h _ hnl, List.map_map]
+  have hdat : ∀ l ∈ rows.map ((· ++ eolPre) ∘ fun r => rowLine r.1 r.2), isHdr l = false ∧ isBlank l = false := by
+    intro l hl
+    obtain ⟨q, _, rfl⟩ := List.mem_map.mp hl
+    refine ⟨isHdr_append_cr eolPre (isHdr_rowLine q.1 q.2) ?_, isBlank_append_cr eolPre (isBlank_rowLine q.1 q.2)⟩
+    obtain ⟨c, r, hc, _⟩ := intChars_head q.1
+    simp [rowLine, hc]
+  exact ⟨dataLines_header_rows _ _ hh hdat, hdrRows_header_rows _ _ (fun l hl => (hdat l hl).1)⟩
+
+/-- **Why the branch is needed** (the behaviour of `_write_swc` without `elif not header.endswith("\n"): header += "\n"`).
+For a header whose last line `last` is a `#` line without a final line break, the first row — the root, PointNo 1 — is glued
+to that comment line and disappears: the reader sees the rows *without the first one*. -/
+theorem unterminated_header_swallows_first_row (x last : List Char) (r : Int × List Char) (rs : List (Int × List Char))
+    (hx : x = [] ∨ ∃ x', x = x' ++ ['\n']) (hxl : ∀ l ∈ lines x, isHdr l = true ∨ isBlank l = true)
+    (hlast : isHdr last = true) (hnl : '\n' ∉ last) (hr : '\n' ∉ r.2) (hrs : ∀ q ∈ rs, '\n' ∉ q.2) :
+    dataLines (lines (assembleRaw (x ++ last) ((r :: rs).map fun q => rowLine q.1 q.2))) =
+      rs.map (fun q => rowLine q.1 q.2 ++ eolPre) := by
+  have hnl' : ∀ q ∈ rs.map (fun q => rowLine q.1 q.2), '\n' ∉ q := by
+    intro q hq
+    obtain ⟨p, hp, rfl⟩ := List.mem_map.mp hq
+    exact nl_not_mem_rowLine p.1 p.2 (hrs p hp)
+  unfold assembleRaw
+  rw [List.map_cons, lines_raw_glued eolPre eolPre_no_nl x last _ _ hx hnl (nl_not_mem_rowLine r.1 r.2 hr) hnl', List.map_map,
+    dataLines_eq_filter, List.filter_append, filter_isData_header _ hxl, List.nil_append, List.filter_cons]
+  have hg : isData (last ++ rowLine r.1 r.2 ++ eolPre) = false := by
+    have : isHdr (last ++ rowLine r.1 r.2 ++ eolPre) = true := by
+      rw [List.append_assoc]; exact isHdr_append_of_isHdr _ hlast
+    unfold isData; rw [this]; rfl
+  rw [hg]
+  simp only [Bool.false_eq_true, if_false]
+  apply filter_isData_rows
+  intro l hl
+  obtain ⟨q, _, rfl⟩ := List.mem_map.mp hl
+  refine ⟨isHdr_append_cr eolPre (isHdr_rowLine q.1 q.2) ?_, isBlank_append_cr eolPre (isBlank_rowLine q.1 q.2)⟩
+  obtain ⟨c, r', hc, _⟩ := intChars_head q.1
+  simp [rowLine, hc]
+
+/-- … and a valid table without its first row is never valid (its ids start at 2): the file written without the
+termination branch is invalid for every skeleton with at least two nodes (with one node it is empty). -/
+theorem valid_table_without_first_row_invalid (r : SwcRow) (rs : List SwcRow) (hne : rs ≠ [])
+    (hv : swcValidB (r :: rs) = true) : swcValidB rs = false := by
+  cases rs with
+  | nil => exact absurd rfl hne
+  | cons q rs =>
+    have h := (swcValidB_iff _).mp hv
+    have hq : q.id = 2 := by
+      have := h.1 1 (by simp)
+      simp only [List.getElem_cons_succ, List.getElem_cons_zero] at this
+      omega
+    cases hb : swcValidB (q :: rs) with
+    | false => rfl
+    | true =>
+      have h' := (swcValidB_iff _).mp hb
+      have := h'.1 0 (by simp)
+      simp only [List.getElem_cons_zero] at this
+      omega
+
+/-- **The integer printer and the integer lexer of the token-level model round-trip**: the PointNo / Parent text
+`str(i)` is lexed back to `i`, for every integer (large ids included). -/
+theorem int_print_lex_round_trip (i : Int) : lexInt? (intChars i) = some i := lexInt_intChars i
+
+/-! ### file-name patterns (`fmt`, `BaseReader.parse_filename`)
+
+`matchSegs` / `searchSegs` model the regular expression navis builds from a pattern (literal text, every `{…}` → `(.*)`,
+`re.search`).  They are no longer merely trusted: the matcher is sound and complete for decompositions of the file name
+along the pattern, and the checker the driver evaluates on navis' *own* `parse_filename` values decides "the file name
+contains the pattern with the named placeholders replaced by the extracted values". -/
+
+/-- **The matcher is sound**: the groups returned by a successful search, filled into the pattern, occur in the file name
+(one group per placeholder). -/
+theorem fmt_matcher_sound (segs : List Seg) (cs : List Char) (gs : List (List Char)) (h : searchSegs segs cs = some gs) :
+    gs.length = groupCount segs ∧ ∃ pre rest, cs = pre ++ instSegs segs gs ++ rest := searchSegs_sound segs cs gs h
+
+/-- **The matcher is complete**: if some filling of the pattern occurs in the file name, the search succeeds (a
+`ValueError` "unable to match" is raised only when the pattern cannot be matched at all). -/
+theorem fmt_matcher_complete (segs : List Seg) (cs : List Char)
+    (h : ∃ gs pre rest, gs.length = groupCount segs ∧ cs = pre ++ instSegs segs gs ++ rest) :
+    (searchSegs segs cs).isSome = true := searchSegs_complete segs cs h
+
+/-- **What `parse_filename` returns (model)**: every attribute is the text found at the position of its placeholder, all
+names of one placeholder share it, the `file` attribute is the file name. -/
+theorem matchFmt_sound (segs : List Seg) (filename : String) (props : List (String × String × String))
+    (h : matchFmt segs filename = some props) :
+    ∃ gs, gs.length = groupCount segs ∧ (∃ pre rest, filename.toList = pre ++ instSegs segs gs ++ rest) ∧
+      props = ("file", "str", filename) ::
+        ((segs.filterMap fun s => match s with | .grp fs => some fs | _ => none).zip gs).flatMap
+          fun (fs, g) => fs.map fun (nm, ty) => (nm, ty.getD "str", String.ofList g) := by
+  unfold matchFmt at h
+  cases hs : searchSegs segs filename.toList with
+  | none => rw [hs] at h; simp at h
+  | some gs =>
+    rw [hs] at h
+    simp only [Option.some.injEq] at h
+    obtain ⟨h1, h2⟩ := searchSegs_sound segs _ gs hs
+    exact ⟨gs, h1, h2, h.symm⟩
+
+/-- **The checker decides consistency** of extracted values with the file name: it accepts exactly when the pattern, with
+every named placeholder for which a value is given replaced by that value (anonymous ones left free), occurs in the name. -/
+theorem fmt_checker_iff (segs : List Seg) (val : String → Option (List Char)) (filename : List Char) :
+    fmtConsistentB segs val filename = true ↔
+      ∃ gs pre rest, gs.length = groupCount (fixSegs val segs) ∧ filename = pre ++ instSegs (fixSegs val segs) gs ++ rest := by
+  unfold fmtConsistentB
+  constructor
+  · intro h
+    obtain ⟨gs, hg⟩ := Option.isSome_iff_exists.mp h
+    obtain ⟨h1, pre, rest, h2⟩ := searchSegs_sound _ _ gs hg
+    exact ⟨gs, pre, rest, h1, h2⟩
+  · exact searchSegs_complete _ _
+
 /-! ### rows with missing data (`sanitise_nodes`, DESIGN §6 #15, fixed) -/
 
 /-- Reading never fails because of a NaN in a key column: with enough columns the parser always returns a
@@ -257,6 +478,70 @@ theorem gen_labels : Gen.Swc.readerSomaLabel = Gen.Swc.lblSoma ∧ Gen.Swc.reade
 /-- `write_meta=True` writes id, name and units behind the prefix the reader looks for (`# meta:` case-insensitively). -/
 theorem gen_meta : Gen.Swc.metaKeys = ["id", "name", "units"] ∧ Gen.Swc.metaPrefix = "# Meta: " := ⟨rfl, rfl⟩
 
+/-- `_write_swc` terminates a user supplied header with a line break (`if not header.endswith("\n"): header += "\n"` on the
+str path, before the file is written); the header is written before the rows.  `written_text_lines` rests on this fact. -/
+theorem gen_header_terminated : Gen.Swc.headerTerminated = true ∧ Gen.Swc.writeOrder = ["header", "rows"] := ⟨rfl, rfl⟩
+
+/-- Every line of the generated header is a comment line, every piece ends with a line break, the Meta line starts with
+the prefix the reader looks for and is only written on the generated-header path (`write_meta` is ignored otherwise). -/
+theorem gen_generic_header : (Gen.Swc.genericHeaderLines.all fun l => l.toList.head? == Gen.Swc.commentChar.toList.head?) = true ∧
+    Gen.Swc.genericHeaderPiecesTerminated = true ∧
+    (Gen.Swc.genericHeaderLines.filter fun l => l.toList.take Gen.Swc.metaPrefix.length == Gen.Swc.metaPrefix.toList).length = 1 ∧
+    Gen.Swc.metaOnlyWithGeneratedHeader = true := ⟨by decide, rfl, by decide, rfl⟩
+
+/-- The writer separates fields with the reader's default delimiter; the line terminator of the rows ends with its only `\n`
+(so every row is one physical line); comments start with `#`. -/
+theorem gen_text_format : Gen.Swc.writeDelimiter = Gen.Swc.readDelimiterDefault ∧ Gen.Swc.defaultDelimiter = Gen.Swc.readDelimiterDefault ∧
+    Gen.Swc.writeLineTerminator.toList.getLast? = some '\n' ∧ '\n' ∉ eolPre ∧ Gen.Swc.commentChar = "#" :=
+  ⟨rfl, rfl, by decide, eolPre_no_nl, rfl⟩
+
+/-- How the reader cuts the file: header rows are the leading lines that start with the comment character, `read_csv` treats
+that character as comment, takes no column names from the file (the first row is data) and uses the reader's delimiter. -/
+theorem gen_reader_cut : Gen.Swc.headerRowTest = "not-startswith-comment" ∧
+    Gen.Swc.readCsvArgs.lookup "comment" = some Gen.Swc.commentChar ∧
+    Gen.Swc.readCsvArgs.lookup "header" = some "None" ∧
+    Gen.Swc.readCsvArgs.lookup "delimiter" = some "self.delimiter" := ⟨rfl, rfl, rfl, rfl⟩
+
+/-- The Meta row is looked up case-insensitively by the written prefix (without its trailing blank) and the JSON starts
+right after it; `read_swc` reads the metadata by default. -/
+theorem gen_meta_lookup : Gen.Swc.metaLookup = "lower:# meta:" ∧ Gen.Swc.metaSlice = "# meta:".length ∧
+    Gen.Swc.metaPrefix.toList.map Char.toLower = "# meta: ".toList ∧ Gen.Swc.readMetaDefault = true := ⟨rfl, by decide, by decide, rfl⟩
+
+/-- `precision` p ∈ {16, 32, 64} casts the id columns to `int<p>` and coordinates / radius to `float<p>`; 32 is the default. -/
+theorem gen_precision : Gen.Swc.precisionTable = [(16, "int16", "float16"), (32, "int32", "float32"), (64, "int64", "float64")] ∧
+    Gen.Swc.defaultPrecision = 32 ∧ Gen.Swc.readPrecisionDefault = 32 ∧
+    Gen.Swc.columnDtypeKind = [("node_id", "int_"), ("parent_id", "int_"), ("label", "category"), ("x", "float_"), ("y", "float_"),
+      ("z", "float_"), ("radius", "float_")] := ⟨rfl, rfl, rfl, rfl⟩
+
+/-- `sanitise_nodes` drops a row exactly when one of the columns `parseRow` requires is missing. -/
+theorem gen_key_columns : Gen.Swc.keyColumns = ["node_id", "parent_id", "x", "y", "z"] := rfl
+
+/-- **Every source kind ends in the same parser.**  Following the `self.read_*` references of `BaseReader` (call table
+re-extracted from the source): a file path, a zip member, a tar member, a URL, a string and a bytes object all end in
+`read_buffer` and nothing else; the generic entry points end in `read_buffer`, `read_dataframe` (DataFrames) or the FTP reader;
+and `read_buffer` / `read_dataframe` are the only `read_*` methods `SwcReader` defines — there is one SWC parser, whatever the
+source. -/
+theorem gen_sources_funnel :
+    (["read_file_path", "read_from_zip", "read_zip", "read_tar", "read_directory", "read_url", "read_string", "read_bytes"].all fun m =>
+      (terminals Gen.Swc.sourceFunnel 6 m).all (· == "read_buffer")) = true ∧
+    (["read_any_single", "read_any_multi", "read_any"].all fun m =>
+      (terminals Gen.Swc.sourceFunnel 6 m).all fun t => t == "read_buffer" || t == "read_dataframe" || t == "read_ftp") = true ∧
+    Gen.Swc.swcReaderMethods = ["read_buffer", "read_dataframe"] := ⟨by decide, by decide, rfl⟩
+
+/-- A DataFrame source is the node table handed to the same `read_dataframe` the text sources end in: same nodes, soma and
+connectors as reading the text (no header, hence no header properties). -/
+theorem dataframe_source_same_table (cfg : ReadCfg) (ls : List Line) (f : SwcFile) (h : parseSwc ls = some f) :
+    ∃ r, readBack cfg ls = some r ∧ (ofFile cfg { props := none, rows := f.rows }).nodes = r.nodes ∧
+      (ofFile cfg { props := none, rows := f.rows }).soma = r.soma ∧ (ofFile cfg { props := none, rows := f.rows }).conns = r.conns := by
+  refine ⟨ofFile cfg f, ?_, rfl, rfl, rfl⟩
+  unfold readBack; rw [h]; rfl
+
+/-- File names: the default pattern reads the name, `include_subdirs` is off and `limit` is unset by default; a neuron
+written into a folder or a zip is called `<id>.swc`. -/
+theorem gen_file_names : Gen.Swc.readFmtDefault = "{name}.swc" ∧ Gen.Swc.defaultFmt = "{name}.swc" ∧
+    Gen.Swc.includeSubdirsDefault = false ∧ Gen.Swc.limitDefaultIsNone = true ∧
+    Gen.Swc.folderFileNameAttr = "id" ∧ Gen.Swc.zipPattern = "{neuron.id}" := ⟨rfl, rfl, rfl, rfl, rfl, rfl⟩
+
 /-! ### non-vacuity: concrete inputs meeting the hypotheses -/
 
 /-- A forest with shuffled ids, a branch point, a soma, synapses, a NaN radius. -/
@@ -284,5 +569,34 @@ example : sanitiseRows [some ⟨1, some 0, 0, 0, 0, none, -1⟩, none, some ⟨3
 example : ∃ n ∈ demo.nodes, n.id ∈ demo.soma ∧ ((true = true) → n.id ∉ demo.post ∧ n.id ∉ demo.pre) := by decide
 example : (makeSwcTable { exportConn := true } demo).map (·.label) = [some 0, some 0, some 8, some 1, some 6, some 7] := by decide
 example : nodeMap demo = [(167, 1), (98, 2), (25, 3), (125, 4), (111, 5), (8, 6)] := by decide
+
+-- header option: a user header with a comment, a blank line and a Meta line has no data row; the round trip returns the
+-- table and (the Meta line sits behind a blank line, outside the leading `#` lines) no properties
+example : noRows [.comment "# mine", .blank, .props [("id", "9")]] = true := by decide
+example : metaOf [.comment "# mine", .blank, .props [("id", "9")]] = none := by decide
+example : metaOf [.comment "# mine", .props [("id", "9")], .comment "# c"] = some [("id", "9")] := by decide
+-- character level: '# a' without line break, two rows
+example : eolPre = ['\r'] := by decide
+example : lines (assemble "# a".toList ["1 0".toList, "2 1".toList]) = ["# a".toList, "1 0\r".toList, "2 1\r".toList] := by decide
+example : dataLines (lines (assemble "# a".toList ["1 0".toList, "2 1".toList])) = ["1 0\r".toList, "2 1\r".toList] := by decide
+example : dataLines (lines (assembleRaw "# a".toList ["1 0".toList, "2 1".toList])) = ["2 1\r".toList] := by decide
+example : lines (assemble [] ["1 0".toList]) = [[], "1 0\r".toList] := by decide
+example : intChars (-1) = "-1".toList ∧ intChars 0 = "0".toList ∧ intChars 4294967301 = "4294967301".toList := by decide
+example : lexInt? "+12".toList = some 12 ∧ lexInt? "1.0".toList = none ∧ lexInt? "-".toList = none := by decide
+
+-- as written: the rerooted chain (rows child-first: every walk of `_node_depths` runs to the root) and the demo forest
+example : nodeDepthsW chain5Rerooted.nodes = [4, 3, 2, 1, 0] := by decide
+example : nodeDepthsW demo.nodes = [1, 2, 0, 1, 0, 2] := by decide
+example : makeSwcTableW { exportConn := true } demo = makeSwcTable { exportConn := true } demo := by decide
+-- on a cycle the `on_path` guard stops the walk (the model follows the code; not a well-formed forest)
+example : nodeDepthsW [{ id := 1, parent := 2 }, { id := 2, parent := 1 }] = [1, 0] := by decide
+
+-- file-name patterns: `{name}_{}_{id}.swc` on `DA1_left_1234.swc`; the checker accepts the right values and rejects shifted ones
+def fmtDemo : List Seg := [.grp [("name", none)], .lit ['_'], .grp [], .lit ['_'], .grp [("id", none)], .lit ".swc".toList]
+example : searchSegs fmtDemo "DA1_left_1234.swc".toList = some ["DA1".toList, "left".toList, "1234".toList] := by decide
+example : fmtConsistentB fmtDemo (fun n => if n = "name" then some "DA1".toList else if n = "id" then some "1234".toList else none)
+    "DA1_left_1234.swc".toList = true := by decide
+example : fmtConsistentB fmtDemo (fun n => if n = "name" then some "DA1".toList else if n = "id" then some "left".toList else none)
+    "DA1_left_1234.swc".toList = false := by decide
 
 end Navis.Props.C07
